@@ -94,6 +94,54 @@ def rule_stego(ctx, res):
 
 
 def rule_memmap(ctx, res):
+    """evaluated first: the writer's layout of the image memory (to_file on
+    symbolic regions) against the slices the loaded game is built from
+    (from_file on symbolic image memory) -- writer and reader compared with
+    each other, whatever way they are written"""
+    from . import cxcodecs as XC
+    F = PNG + ':P8PNGFormatter'
+    try:
+        pl = XC.evaluate_png_plumbing(ctx)
+        if not isinstance(pl.writer, AnalysisError) and \
+                not isinstance(pl.loaded, AnalysisError):
+            wl = pl.writer_layout()
+            gr = pl.game_regions()
+            cs = pl.code_slice()
+            bad = []
+            for n in ('gfx', 'map', 'gff', 'music', 'sfx'):
+                w_ = wl.get(n)
+                g_ = gr.get(n)
+                if w_ is None or g_ is None or (g_[1], g_[2]) != w_ or \
+                        g_[0] != XC.SECTIONS[n].split(':')[-1]:
+                    bad.append((n, w_, g_))
+            if cs is None or wl.get('code') != cs[:2]:
+                bad.append(('code', wl.get('code'), cs))
+            vw = wl.get('version', (None,))[0]
+            vr = gr.get('version')
+            if vw is None or vr is None or vr[1] != vw or (
+                    cs is not None and cs[2] != vw):
+                bad.append(('version', vw, vr))
+            res.check(not bad, 'R-C04-memmap', F + '.from_file',
+                      'reader slice bounds == prefix sums of the writer\'s '
+                      'regions, each slice consumed by the class of its '
+                      'region',
+                      'evaluated: writer layout {}'.format(
+                          {k: v for k, v in wl.items() if k != 'size'}),
+                      'the writer lays the image memory out differently '
+                      'from what the reader takes: (part, writer, reader) '
+                      '{}'.format(bad), ctx.model.func(F + '.from_file').loc,
+                      semantic=True)
+            code = wl.get('code')
+            res.check(code is not None and code[1] - code[0] ==
+                      ref.CODE_AREA and wl.get('size') == 0x8001,
+                      'R-C04-memmap', F + '.to_file',
+                      'code area is 0x3d00 bytes, image is 0x8001 bytes',
+                      '', 'code area {} / image {}'.format(code,
+                                                           wl.get('size')),
+                      ctx.model.func(F + '.to_file').loc, semantic=True)
+            return
+    except AnalysisError:
+        pass
     sizes = _region_sizes(ctx)
     m = codecs.png_memory_order(ctx)
     w, r = m['writer'], m['reader']
@@ -507,9 +555,58 @@ def _kind_of(f, e):
     return 'unknown'
 
 
+def rule_code_area_evaluated(ctx, res):
+    """-> True when both directions of the code area were decided by
+    evaluation (the shape rules for header / refuse / kinds are then
+    redundant)"""
+    from . import cxcodecs as XC
+    ca = XC.CodeAreaEval(ctx)
+    decided = 0
+    try:
+        wp = ca.writer_problem()
+        cases = ', '.join('{}/{}'.format(n, m) for (n, m) in ca.CASES)
+        refuse = wp is not None and ('do not fit' in wp or
+                                     'does not fit' in wp)
+        res.check(wp is None or refuse, 'R-C04-header', ca.f.qual,
+                  'code area = `:c:\\0` + length (hi, lo) + `\\0\\0` + '
+                  'stream when the stream is shorter than the code, else '
+                  'the code itself; zero padded to 0x3d00 (evaluated)',
+                  'get_bytes_from_code evaluated with a stand-in compressor '
+                  'for code/stream lengths ' + cases,
+                  wp or '', ca.f.loc, semantic=True)
+        res.check(not refuse, 'R-C04-refuse', ca.f.qual,
+                  'code that does not fit is refused (evaluated)',
+                  'lengths at and around the 0x3d00-byte limit, with and '
+                  'without the 8-byte header', wp or '', ca.f.loc,
+                  semantic=True)
+        decided += 1
+    except AnalysisError as e:
+        res.info('R-C04-header', ca.f.qual, 'code area writer not followed '
+                 'by the evaluation', str(e)[:160])
+    try:
+        rp = ca.reader_problem()
+        res.check(rp is None, 'R-C04-header', ca.g.qual,
+                  'an area starting with `:c:\\0` (version > 0) goes to the '
+                  'decompressor and its result is returned; any other area '
+                  'is the text up to the first zero + newline (evaluated)',
+                  '', rp or '', ca.g.loc, semantic=True)
+        decided += 1
+    except AnalysisError as e:
+        res.info('R-C04-header', ca.g.qual, 'code area reader not followed '
+                 'by the evaluation', str(e)[:160])
+    return decided == 2
+
+
 def run(ctx, res):
-    for rule in (rule_stego, rule_memmap, rule_header, rule_refuse,
-                 rule_kinds):
+    evaluated = False
+    try:
+        evaluated = rule_code_area_evaluated(ctx, res)
+    except AnalysisError as e:
+        res.info('R-C04-header', 'rule_code_area_evaluated', 'analysis',
+                 str(e)[:160])
+    rules = (rule_stego, rule_memmap) if evaluated else (
+        rule_stego, rule_memmap, rule_header, rule_refuse, rule_kinds)
+    for rule in rules:
         try:
             rule(ctx, res)
         except AnalysisError as e:
